@@ -46,7 +46,7 @@ ASSUME += [
 
 @st.composite
 def histories(draw):
-    p = S.profile_for(["c"], callbacks=False, keywords=False, modules=1, max_types=6, max_methods=4, max_params=3, lifetimes=False, utf8strs=False)
+    p = S.profile_for(["c"], callbacks=True, cb_rate=5, keywords=False, modules=1, max_types=6, max_methods=4, max_params=3, lifetimes=False, utf8strs=False)
     prog = draw(S.programs(p))
     e2e.add_support_methods(prog)
     plan, history, stats = e2e.plan_history(draw, prog, draw(st.integers(8, 30)))
@@ -77,6 +77,8 @@ def evaluate_history(art, work, prog, plan, history):
     if not fails and (rets != exp_rets or logs != [l.rstrip() for l in exp_logs]):
         bad = next(((g, w) for g, w in zip(rets + logs, exp_rets + [l.rstrip() for l in exp_logs]) if g != w), ("<count>", "<count>"))
         fails.append(("values", "history observed `%s`, expected `%s`" % bad))
+    if not fails:
+        fails += e2e.callback_fails(prog, plan, lines, history=history)
     return fails, res
 
 
